@@ -41,7 +41,7 @@ func (d *wrappedStringDecoder) DecodeStream(s *Stream, depth int64, p unsafe.Poi
 	}
 	b := make([]byte, len(bytes)+1)
 	copy(b, bytes)
-	if _, err := d.dec.Decode(&RuntimeContext{Buf: b}, 0, depth, p); err != nil {
+	if _, err := d.dec.Decode(&RuntimeContext{Buf: b, Option: s.Option}, 0, depth, p); err != nil {
 		return err
 	}
 	return nil
